@@ -324,7 +324,7 @@ def run_equiv(name, dsn):
             dev = float(np.abs(M - Mref).max() / max(np.abs(Mref).max(), 1e-300))
             worst = max(worst, dev / tol)
             sigs.add((name, clab, vn, dsn))
-            if dev > tol:
+            if not dev <= tol:
                 viol.append(V(name + '.fit', 'equivalent_differs', 'fit on the %s form of the same numbers gives another metric '
                               '(relative deviation %.3g > %.0e) [%s]' % (vn, dev, tol, clab), [vn, clab], deviation=dev))
             if isinstance(Av, np.ndarray) and vn != 'strided_view' and not np.array_equal(Av, variants[vn] if False else Av):
